@@ -249,6 +249,21 @@ EXTRA4 = {
 for _pid, (_t, _x) in EXTRA4.items():
     CLAIMS[_pid]["technique"] += _t
     CLAIMS[_pid]["text"] += _x
+EXTRA5 = {
+ "C03": ("; BLAKE2 offset-counter carry rows on the C evaluator (states set just below 2^32 / 2^64 bytes)", ""),
+ "C08": ("; EccKey.__eq__ interpreted on pairs over a stand-in point class carrying (curve, x, y)", ""),
+ "C10": ("; ChaCha20 seek() as a labelled transition; structural rule: the state variable is written only by __init__ and the methods of the documented diagram", ""),
+ "C11": ("; counter wrap with a suffix after the counter", ""),
+ "C12": ("; the native EksBlowfishSetup on the C evaluator against an independent reference whose tables are computed as the digits of pi",
+         " Also decided: P-array, S-boxes and ECB output of the bcrypt key schedule for key lengths 1..72 around the word boundaries, costs 0..1 (0..3 thorough), both loop orders."),
+ "C13": ("; X6 follows a SEQUENCE member one call into same-module helpers (type test precedes numeric use)", ""),
+ "C17": ("; bounds-checked row tables of every other native kernel (OCB, Keccak, MD padding, ChaCha20, Salsa20, Poly1305, GHASH, block ciphers, PKCS#1/OAEP decoders) with exactly sized buffers; EKSBlowfish length guards",
+         " Also decided: an empty key or salt is refused by the bcrypt key schedule before any access (a repaired defect)."),
+}
+for _pid, (_t, _x) in EXTRA5.items():
+    CLAIMS[_pid]["technique"] += _t
+    CLAIMS[_pid]["text"] += _x
+CLAIMS["C12"]["text"] = CLAIMS["C12"]["text"].replace(" scrypt's ROMix and the EKSBlowfish rounds (native) are not decided.", " EKSBlowfish outside its row table is not decided.")
 CLAIMS["C16"]["text"] = CLAIMS["C16"]["text"].replace(" Bit-for-bit equality of the AES round functions / GHASH multipliers and of libgmp's arithmetic is not decided.", " Equality of the AES round functions / GHASH multipliers beyond the tables, and libgmp's arithmetic, are not decided.")
 CLAIMS["C04"]["note"] += " Two recorded findings are in known_findings.json (status known): C04 sign() without retry on a zero component."
 
